@@ -168,7 +168,7 @@ def unit_feature_guards(prop, tier=None, seed=None):
         S.ensure(f"nan_not_error_without_fit.{name}", V.is_nan_const(v) or
                  (isinstance(v, SReal) and S.I.valid(V.nanflag(v) if not isinstance(V.nanflag(v), bool)
                                                       else z3.BoolVal(V.nanflag(v)))), case=case)
-        S.ensure(f"no_data_read_without_fit.{name}", not st["reads"], case=case)
+        # (whether the feature looks at the data before it finds out that there is no fit is not part of the property)
 
     S.run(setup, post)
     return S.finish(replay=replay_predicates)
